@@ -360,6 +360,24 @@ fn byte_variants(t: &mut Tape, ctx: &mut Ctx) -> R {
     Ok(())
 }
 
+/// raw bytes (fuzz entry and replay format): the tape is the PSET wire string
+fn raw_bytes(t: &mut Tape, ctx: &mut Ctx) -> R {
+    let n = t.remaining();
+    let mut b = t.bytes(n);
+    if !b.starts_with(b"pset\xff") && t.consumed() % 2 == 0 {
+        // help blind search past the magic
+        let mut m = b"pset\xff".to_vec();
+        m.append(&mut b);
+        b = m;
+    }
+    let r = fixpoint(&b, ctx)?;
+    ctx.class(if r.is_some() { "raw:accepted" } else { "raw:rejected" });
+    if r.is_some() {
+        ctx.nontrivial(&b);
+    }
+    Ok(())
+}
+
 pub fn corpus_psets() -> Vec<(String, Vec<u8>)> {
     let mut out = Vec::new();
     let dir = format!("{}/corpus/pset", VERIF_DIR);
@@ -467,6 +485,7 @@ pub fn property() -> Property {
             Sub { name: "roundtrip", kind: Kind::Tape { max_len: 6000, quick: 8_000, thorough: 250_000, f: roundtrip } },
             Sub { name: "byte_variants", kind: Kind::Tape { max_len: 6000, quick: 30_000, thorough: 800_000, f: byte_variants } },
             Sub { name: "vectors", kind: Kind::Index { count: |t| t.pick(30, 600), exhaustive: false, f: vectors } },
+            Sub { name: "raw_bytes", kind: Kind::Tape { max_len: 400, quick: 20_000, thorough: 400_000, f: raw_bytes } },
         ],
         known: vec![Known { key: KF_TAPTREE, what: "the tap-tree codec reverses the leaf order on every hop: encode(decode(b)) alternates between two byte strings", repro: repro_taptree }],
     }
